@@ -43,7 +43,7 @@ RULE = (
 SCOPE = {"quick": {"GE": 8, "NR": 2500, "NW": 12}, "thorough": {"GE": 11, "NR": 30000, "NW": 40}}
 EXHAUSTIVE_SCOPE = {t: f"CDS layouts over {s['GE']} positions, <=3 blocks, all frame vectors, all windows" for t, s in SCOPE.items()}
 FLOOR = {"quick": 600, "thorough": 1500}
-REQUIRED_MONITORS = ["cds.codon-locations", "cds.sequence-fast", "cds.sequence-slow", "cds.scan-codons", "cds.translate", "cds.flags",
+REQUIRED_MONITORS = ["cds.phases", "cds.optimize", "cds.codon-locations", "cds.sequence-fast", "cds.sequence-slow", "cds.scan-codons", "cds.translate", "cds.flags",
                      "cds.window", "cds.window-expand", "cds.construct-frames", "cds.transcript-wrappers"]
 _C = "inscripta.biocantor.gene.cds:CDSInterval."
 REACH = [_C + x for x in ("_prepare_single_exon_window_for_scan_codon_locations", "_prepare_multi_exon_window_for_scan_codon_locations",
@@ -133,6 +133,12 @@ def _mk(blocks, strand, frames, genome, parent=True):
 
     p = seq_to_parent(genome, seq_id="chr1") if parent else None
     return CDSInterval([b[0] for b in blocks], [b[1] for b in blocks], GG._strand(strand), GG._frames(frames), parent_or_seq_chunk_parent=p)
+
+
+def seq_to_parent_(genome):
+    from inscripta.biocantor.io.parser import seq_to_parent
+
+    return seq_to_parent(genome, seq_id="chr1")
 
 
 def _loc_positions(loc):
@@ -373,6 +379,52 @@ def run_case(case, ctx):
                                                                 ("first-block-equals-offset" if first_len == f else "plain")),
                   f=f, frames=gotf, first_block_len=first_len, got=got_c, want=want_c)
 
+    # ---- frames given as phases ------------------------------------------------------------------------
+    from inscripta.biocantor.gene.cds_frame import CDSPhase
+
+    phases = [CDSPhase({0: 0, 1: 2, 2: 1}[f]) for f in frames]      # GFF3 column 8: phase = bases to skip = (3 - frame) % 3
+    pc, exc = ctx.call(CDSInterval, [b[0] for b in blocks], [b[1] for b in blocks], GG._strand(strand), phases,
+                       parent_or_seq_chunk_parent=seq_to_parent_(genome))
+    if exc is not None:
+        ctx.check("cds.phases", False, key=("constructor-raised", type(exc).__name__), exc=repr(exc)[:200])
+    else:
+        ctx.check("cds.phases", [x.value for x in pc.frames] == frames, key="frames-from-phases", got=[x.value for x in pc.frames], want=frames)
+        res, exc = ctx.call(lambda: [_loc_positions(c) for c in pc.chromosome_codon_locations])
+        judge("cds.phases", "codon-locations", res, exc, lambda r: r == mc, got=res, want=mc)
+
+    # ---- optimize_blocks / optimize_and_combine_blocks: documented to keep the 5' frame and lose internal frameshifts -------------
+    merged = []
+    for s0, e0 in blocks:
+        if merged and merged[-1][1] == s0:
+            merged[-1] = (merged[-1][0], e0)
+        else:
+            merged.append((s0, e0))
+    f0 = FM.frames_5to3(frames, strand)[0]
+    want_opt = FM.uninterrupted_codons(merged, strand, f0)
+    first_len = len(FM.exons_5to3(merged, strand)[0])
+    for name in ("optimize_blocks", "optimize_and_combine_blocks"):
+        oc = _mk(blocks, strand, frames, genome)
+        res, exc = ctx.call(getattr(oc, name))
+        tag = "first-block-shorter-than-offset" if first_len < f0 else "plain"
+        if exc is not None:
+            if not want_opt and _refusal(exc):
+                ctx.seen("cds.optimize")
+                continue
+            ctx.check("cds.optimize", False, key=(name, "raised", type(exc).__name__, tag), exc=repr(exc)[:200], merged=merged, f=f0, first_block_len=first_len)
+            continue
+        gb = sorted((b.start, b.end) for b in res.chromosome_location.blocks)
+        ctx.check("cds.optimize", gb == merged, key=(name, "blocks"), got=gb, want=merged)
+        got_c, exc = ctx.call(lambda: [_loc_positions(c) for c in res.chromosome_codon_locations])
+        if exc is not None and not want_opt and _refusal(exc):
+            ctx.seen("cds.optimize")
+            continue
+        ctx.check("cds.optimize", exc is None and got_c == want_opt, key=(name, "codons", tag), got=got_c, want=want_opt, merged=merged, f=f0,
+                  first_block_len=first_len, frames=None if exc else [x.value for x in res.frames], exc=repr(exc)[:200] if exc else None)
+        if consistent and exc is None and len(FM.exons_5to3(blocks, strand)[0]) >= f0:
+            # nothing to lose: the merged CDS reads exactly what the original reads (the original's 5' block holds the whole start
+            # offset, so its annotation really is one uninterrupted frame)
+            ctx.check("cds.optimize", got_c == mc, key=(name, "consistent-cds-unchanged"), got=got_c, want=mc)
+
     # ---- transcript wrappers -------------------------------------------------------------------------
     tspec = {"exons": [list(b) for b in blocks], "strand": strand, "cds": [list(b) for b in blocks], "frames": frames}
     from inscripta.biocantor.io.parser import seq_to_parent
@@ -403,6 +455,9 @@ def classify(v):
             dist = max(0, (ws if ws is not None else s) - s) if case["strand"] == "+" else max(0, e - (we if we is not None else e))
             if f in (1, 2) and f + ((-dist) % 3) >= 3 and d["want"] and d["got"] == d["want"][1:]:
                 return "K18-single-exon-start-frame-window-cuts-5p-loses-first-codon"
+    if v["monitor"] == "cds.optimize" and isinstance(d.get("first_block_len"), int) and isinstance(d.get("f"), int) and d["first_block_len"] < d["f"]:
+        # optimize_blocks / optimize_and_combine_blocks rebuild the frames with construct_frames_from_location(merged, 5' frame): K13
+        return "K13-construct-frames-first-block-shorter-than-offset"
     if v["monitor"] == "cds.construct-frames":
         # K13: the first (5') block is shorter than the requested start offset
         if isinstance(d.get("first_block_len"), int) and isinstance(d.get("f"), int) and d["first_block_len"] < d["f"]:
